@@ -18,9 +18,30 @@ SHAPES = {
 }
 
 
-def build_score(q=4, pickup=False):
+def build_score_tsreturn(q=4):
+    """4/4 | 3/4 | 4/4 : a time signature that returns to an earlier one; one note per bar."""
     import partitura.score as S
 
+    part = S.Part("P1", "piece", quarter_duration=q)
+    part.add(S.KeySignature(0, "major"), 0)
+    b1, b2, b3 = 4 * q, 7 * q, 11 * q
+    part.add(S.TimeSignature(4, 4), 0)
+    part.add(S.TimeSignature(3, 4), b1)
+    part.add(S.TimeSignature(4, 4), b2)
+    part.add(S.Measure(number=1), 0, b1)
+    part.add(S.Measure(number=2), b1, b2)
+    part.add(S.Measure(number=3), b2, b3)
+    part.add(S.Note("C", 4, id="s1", voice=1, staff=1), 0, b1)
+    part.add(S.Note("E", 4, 1, id="s2", voice=1, staff=1), b1, b2)
+    part.add(S.Note("G", 3, -1, id="s3", voice=2, staff=2), b2, b3)
+    return part, {"s1": (0, b1), "s2": (b1, 3 * q), "s3": (b2, 4 * q)}, b1
+
+
+def build_score(q=4, pickup=False, ts_return=False):
+    import partitura.score as S
+
+    if ts_return:
+        return build_score_tsreturn(q)
     part = S.Part("P1", "piece", quarter_duration=q)
     part.add(S.TimeSignature(4, 4), 0)
     part.add(S.KeySignature(0, "major"), 0)
@@ -38,7 +59,7 @@ def build_score(q=4, pickup=False):
     return part, {"s1": (0, first), "s2": (first, 2 * q), "s3": (first + 2 * q, 2 * q)}, first
 
 
-def make_chain(shape, ppq, mpq, pickup=False):
+def make_chain(shape, ppq, mpq, pickup=False, ts_return=False):
     align_spec = SHAPES[shape]
 
     def h(on1: int, du1: int, on2: int, du2: int, on3: int, du3: int, v1: int, v2: int, ped_t: int, ped_v: int, soft_v: int):
@@ -50,7 +71,7 @@ def make_chain(shape, ppq, mpq, pickup=False):
         for x in (on1, on2, on3, ped_t):
             require(0 <= x <= 10 ** 5)
         for d in (du1, du2, du3):
-            require(1 <= d <= 10 ** 4)
+            require(0 <= d <= 10 ** 4)  # zero-length (ghost) notes included
         require(on1 < on2 < on3)  # performed in score order (the exporter sorts lines by interpolated score time)
         # matched notes are the knots of the performance->score time map (interpolation divides by their
         # differences): their onsets are pinned, the unmatched notes' onsets and all durations stay symbolic
@@ -65,7 +86,7 @@ def make_chain(shape, ppq, mpq, pickup=False):
         require(1 <= v2 <= 127)
         require(0 <= ped_v <= 127)
         require(0 <= soft_v <= 127)
-        spart, sinfo, first = build_score(pickup=pickup)
+        spart, sinfo, first = build_score(pickup=pickup, ts_return=ts_return)
         ms = lambda x: x / 1000
         pnotes = [dict(id="n1", midi_pitch=60, note_on=ms(on1), note_off=ms(on1 + du1), velocity=v1, track=0, channel=1),
                   dict(id="n2", midi_pitch=65, note_on=ms(on2), note_off=ms(on2 + du2), velocity=v2, track=0, channel=1),
@@ -145,6 +166,12 @@ def make_chain(shape, ppq, mpq, pickup=False):
         check(len(kss) == len(exp_ks), "number of key signatures", kss, exp_ks)
         for a, b in zip(kss, exp_ks):
             check(abs(a[0] - b[0]) < 1e-6 and a[1] == b[1] and a[2] == b[2], "key signature not at the bar where it was written", kss, exp_ks)
+        TS = __import__("partitura").score.TimeSignature
+        ts_old = sorted((float(bm_old(t.start.t)), t.beats, t.beat_type) for t in spart.iter_all(TS))
+        ts_new = sorted((float(bm_new(t.start.t)), t.beats, t.beat_type) for t in sp2.iter_all(TS))
+        check(len(ts_old) == len(ts_new), "number of time signatures", ts_new, ts_old)
+        for a, b in zip(ts_new, ts_old):
+            check(abs(a[0] - b[0]) < 1e-6 and a[1] == b[1] and a[2] == b[2], "time signature not at the bar where it was written", ts_new, ts_old)
         m_old = sorted(float(bm_old(m.start.t)) for m in spart.iter_all(__import__("partitura").score.Measure))
         m_new = sorted(float(bm_new(m.start.t)) for m in sp2.iter_all(__import__("partitura").score.Measure))
         check(len(m_old) == len(m_new) and all(abs(a - b) < 1e-6 for a, b in zip(m_old, m_new)), "measure positions", m_old, m_new)
@@ -155,10 +182,93 @@ def make_chain(shape, ppq, mpq, pickup=False):
 
 def _inst(tier):
     out = [{"shape": "mixed", "ppq": 500, "mpq": 500000}, {"shape": "all_match", "ppq": 1000, "mpq": 1000000},
-           {"shape": "match_del", "ppq": 500, "mpq": 500000, "pickup": True}]
+           {"shape": "match_del", "ppq": 500, "mpq": 500000, "pickup": True},
+           {"shape": "all_match", "ppq": 96, "mpq": 600000, "ts_return": True}]
     if tier != "quick":
         out += [{"shape": "all_match", "ppq": 480, "mpq": 500000}, {"shape": "all_match", "ppq": 250, "mpq": 500000}, {"shape": "mixed", "ppq": 96, "mpq": 600000, "pickup": True}, {"shape": "all_match", "ppq": 1000, "mpq": 250000}]
     return out
+
+
+HEADER = ["info(matchFileVersion,1.0.0).", "info(piece,-).", "info(scoreFileName,-).", "info(midiFileName,-).",
+          "info(composer,-).", "info(performer,-).", "info(midiClockUnits,500).", "info(midiClockRate,500000).",
+          "scoreprop(keySignature,C,1:1,0,0.0000).", "scoreprop(timeSignature,4/4,1:1,0,0.0000)."]
+SN = "snote(s{sid},[C,n],4,1:1,0,1,0.0000,4.0000,[v1,staff1])"
+NO = "note(n{pid},60,{on},{off},64,1,0)"
+
+
+def make_dedupe(kinds):
+    """load_matchfile on a file whose note lines have the concrete kinds ``kinds`` (M match, D deletion, I insertion)
+    and symbolic score / performance ids drawn from a small pool, so that every pattern of coinciding ids is a path."""
+    k = len(kinds)
+
+    def h(a0: int, a1: int, a2: int, a3: int, a4: int, b0: int, b1: int, b2: int, b3: int, b4: int):
+        import os
+        import tempfile
+        from engine import sym as _sym
+        from partitura.io import importmatch as IM
+        from partitura.io import matchfile_base as MB
+
+        A, B = [a0, a1, a2, a3, a4], [b0, b1, b2, b3, b4]
+        for i in range(5):
+            used_a = i < k and kinds[i] in "MD"
+            used_b = i < k and kinds[i] in "MI"
+            require(0 <= A[i] <= 1 if used_a else A[i] == 0)
+            require(0 <= B[i] <= 1 if used_b else B[i] == 0)
+        A = [_sym.realize(x) for x in A]  # ids end up in text: enumeration by realisation
+        B = [_sym.realize(x) for x in B]
+        lines = []
+        for i, kd in enumerate(kinds):
+            if kd == "M":
+                lines.append((kd, A[i], B[i], SN.format(sid=A[i]) + "-" + NO.format(pid=B[i], on=100 * i, off=100 * i + 50) + "."))
+            elif kd == "D":
+                lines.append((kd, A[i], None, SN.format(sid=A[i]) + "-deletion."))
+            else:
+                lines.append((kd, None, B[i], "insertion-" + NO.format(pid=B[i], on=100 * i, off=100 * i + 50) + "."))
+        # (not mkstemp: CrossHair makes the random file name symbolic)
+        fn = os.path.join(tempfile.gettempdir(), "verif_c08_%d_%s.match" % (os.getpid(), kinds))
+        try:
+            with open(fn, "w") as f:
+                f.write("\n".join(HEADER + [l[3] for l in lines]) + "\n")
+            mf = must_not_raise(IM.load_matchfile, fn, _what="load_matchfile")
+        finally:
+            os.unlink(fn)
+        # reference: the documented resolution
+        seen, uniq = set(), []
+        for l in lines:
+            if l[3] not in seen:
+                seen.add(l[3])
+                uniq.append(l)
+        cnt = {}
+        for l in uniq:
+            if l[1] is not None:
+                cnt[l[1]] = cnt.get(l[1], 0) + 1
+        uniq = [l for l in uniq if not (l[0] == "D" and cnt[l[1]] > 1)]
+        cnt = {}
+        for l in uniq:
+            if l[2] is not None:
+                cnt[l[2]] = cnt.get(l[2], 0) + 1
+        exp = [(l[0], l[1], l[2]) for l in uniq if not (l[0] == "I" and cnt[l[2]] > 1)]
+        got = []
+        for l in mf.lines:
+            if isinstance(l, MB.BaseSnoteNoteLine):
+                got.append(("M", int(l.snote.Anchor[1:]), int(l.note.Id[1:])))
+            elif isinstance(l, MB.BaseDeletionLine):
+                got.append(("D", int(l.snote.Anchor[1:]), None))
+            elif isinstance(l, MB.BaseInsertionLine):
+                got.append(("I", None, int(l.note.Id[1:])))
+        check(got == exp, "note lines after load_matchfile differ from the documented duplicate resolution", got, exp)
+        al = must_not_raise(IM.note_alignment_from_matchfile, mf, _what="note_alignment_from_matchfile")
+        check(len(al) == len(exp), "alignment entries vs note lines", len(al), len(exp))
+        return [list(map(str, g)) for g in got]
+
+    return h
+
+
+def _inst_dedupe(tier):
+    ks = ["DMIM", "MDDI", "IDMIM", "DIDIM", "MMDI"]
+    if tier != "quick":
+        ks += ["DDIIM", "MIMDD", "IMDMI", "DMDMI", "MDIDM"]
+    return [{"kinds": k} for k in ks]
 
 
 def EXTRA(tier, seed):
@@ -186,6 +296,14 @@ HARNESSES = [
              "notes) per instance; three performed notes with symbolic onset/duration (ms), two symbolic velocities, one "
              "sustain and one soft pedal event with symbolic time/value; alignment shapes mixing match / deletion / "
              "insertion / ornament; listed ppq/mpq; in-memory MatchFile (no text); performed-note ids of the form n<k> (the format prefixes other ids with n)",
-      outside="the text of the file and reading it (C07 covers lines), duplicate-id resolution of load_matchfile, "
+      outside="the text of the file and reading it (C07 covers lines; duplicate-id resolution is harness dedupe), "
               "historical fixture files, larger scores; score reconstruction is exercised on the concrete shapes only"),
+    H("dedupe", make_dedupe, _inst_dedupe, models=["quiet_generic"], budget={"quick": 120, "thorough": 400}, reals_only=False,
+      vectors=[{"a0": 0, "a1": 0, "a2": 0, "a3": 1, "a4": 0, "b0": 0, "b1": 0, "b2": 1, "b3": 1, "b4": 0}],
+      functions=["importmatch.load_matchfile", "importmatch.validate_match_ids", "importmatch.parse_matchline",
+                 "importmatch.note_alignment_from_matchfile"],
+      bounds="files of up to 5 note lines whose kinds (match / deletion / insertion) are concrete per instance and whose score "
+             "and performance ids are symbolic over a pool of 2 (every coincidence pattern is a path; ids are realised "
+             "because they are written into the text)",
+      outside="longer files, ornament / trill lines in conflicts, several conflicting matches (documented as unhandled)"),
 ]
